@@ -824,7 +824,7 @@ func c16aJobStr(s *c16aSnap, j *sev1alpha1.PodMigrationJob) string {
 
 type c16aRoundStats struct {
 	admitted, held, heldNoRoom, failed int
-	boundary, preExceeded  []string
+	boundary, preExceeded              []string
 }
 
 func (w *c16aWorld) checkRound(round int, before, after *c16aSnap, waitingBefore []types.UID) c16aRoundStats {
